@@ -213,6 +213,8 @@ def mutate(r, s):
     if k < 0.96:      # a section of the wrong type
         which = r.choice(['hashing', 'chunking', 'encryption', 'cipher', 'kdf'])
         v = r.choice([None, 5, 'x', 1.5, True, {}])
+        if which == 'kdf' and v == {}:
+            v = {'n': 2}          # an empty kdf section means scrypt n = 2^20 (1 GiB, seconds): only the corpus case does that
         if which in ('cipher', 'kdf'):
             if not isinstance(s.get('encryption'), dict):
                 s['encryption'] = {}
@@ -664,7 +666,8 @@ def addkey_settings_cases(r, n):
                 if isinstance(v.get(p_), int) and not isinstance(v.get(p_), bool) and v[p_] > cap:
                     v[p_] = cap if p_ == 'n' else 3
         elif k < 0.7:
-            s['encryption'][r.choice(['cipher', 'mac', 'kdf'])] = r.choice([{}, None, 5])
+            which = r.choice(['cipher', 'mac', 'kdf'])
+            s['encryption'][which] = r.choice([{} if which != 'kdf' else {'n': 2}, None, 5])
         elif k < 0.8:
             s[r.choice(['hashing', 'chunking', 'x'])] = {}
         cases.append({'repo_settings': r.choice(REPO_SETTINGS), 'settings': s, 'password': r.random() > 0.05, 'shared': r.random() < 0.4, 'unlocked': r.random() < 0.8})
